@@ -621,6 +621,16 @@ func c05Alphabet(zctx *zed.Context) []zed.Type {
 		// (foo=int64, foo=bar=int64), bound back to the first and referred to again
 		rec([]zed.Field{f("a", fooInt), f("b", named("foo", named("bar", i64))), f("c", fooInt), f("d", fooInt)}),
 		rec([]zed.Field{f("p", named("foo", named("bar", i64))), f("q", fooInt), f("r", zctx.LookupTypeArray(fooInt)), f("s", named("foo", named("bar", i64)))}),
+		// a name re-bound inside each kind of container (map key, map value,
+		// set, array, error, union member, nested record), with the earlier
+		// binding used again after the container: serialization and decoding
+		// must track the binding through every constructor alike
+		rec([]zed.Field{f("a", fooInt), f("c", zctx.LookupTypeMap(str, fooStr)), f("b", fooInt)}),
+		rec([]zed.Field{f("a", fooInt), f("c", zctx.LookupTypeMap(fooStr, i64)), f("b", fooInt)}),
+		rec([]zed.Field{f("a", fooStr), f("c", zctx.LookupTypeSet(fooInt)), f("b", fooStr), f("d", zctx.LookupTypeArray(fooInt)), f("e", fooStr)}),
+		rec([]zed.Field{f("a", fooInt), f("c", zctx.LookupTypeError(fooStr)), f("b", fooInt), f("d", union(fooStr, zed.TypeIP)), f("e", fooInt)}),
+		rec([]zed.Field{f("a", fooInt), f("c", rec([]zed.Field{f("x", zctx.LookupTypeMap(fooInt, zctx.LookupTypeArray(fooStr)))})), f("b", fooInt)}),
+		zctx.LookupTypeMap(rec([]zed.Field{f("k", fooInt)}), rec([]zed.Field{f("v", fooStr), f("w", zctx.LookupTypeMap(fooInt, fooInt))})),
 	}
 }
 
@@ -695,7 +705,7 @@ func c05RunHistory(c *rt.Ctx, o *rt.Obs, vs *c06Viols, alphabet []zed.Type, ops 
 }
 
 func runC05(c *rt.Ctx) {
-	c.Note("rule", "perm: one base history of ≤5 steps (entry point × member of a 14-type alphabet) executed in every order, each order in a fresh context; long: one random history of 500 steps over 40 generated types (depth ≤3); conc: 8 goroutines run interleaved histories on one shared context (race detector on, GOMAXPROCS 1/2/8), everything they were handed is checked afterwards. After every step: the returned type and all types reachable from it are the same object (and id) as any earlier one with the same harness structural string (union members sorted) and a different object otherwise; LookupType(id) returns it; its type value equals the harness's own spec encoding; all type values re-read unchanged after the harness overwrote every buffer it had passed in; translate there-and-back is the identity on objects; the type value decodes to an equal structure in a fresh context and equals the one of a constructor-built copy there. non-trivial = a context in which one structure was reached through ≥2 different entry points; distinct by structure")
+	c.Note("rule", "perm: one base history of ≤5 steps (entry point × member of a 22-type alphabet, among them records that re-bind a name inside every kind of container and use the earlier binding again afterwards) executed in every order, each order in a fresh context; long: one random history of 500 steps over 40 generated types (depth ≤3); conc: 8 goroutines run interleaved histories on one shared context (race detector on, GOMAXPROCS 1/2/8), everything they were handed is checked afterwards. After every step: the returned type and all types reachable from it are the same object (and id) as any earlier one with the same harness structural string (union members sorted) and a different object otherwise; LookupType(id) returns it; its type value equals the harness's own spec encoding; all type values re-read unchanged after the harness overwrote every buffer it had passed in; translate there-and-back is the identity on objects; the type value decodes to an equal structure in a fresh context and equals the one of a constructor-built copy there. non-trivial = a context in which one structure was reached through ≥2 different entry points; distinct by structure")
 	c.Note("granularity", "concurrent histories interleave at the Go scheduler's discretion (GOMAXPROCS 1, 2, 8, with Gosched between steps); only the name-definition window inside DecodeTypeValue is forced, through the zed.context.namedef hook")
 	c.Note("assumptions", strings.Join([]string{
 		"byte slices passed to LookupByValue belong to the caller, who may overwrite them once the call has returned",
@@ -839,7 +849,7 @@ func c05Conc(c *rt.Ctx, o *rt.Obs) {
 	alphabet := c05Alphabet(tmplCtx)
 	if r.Bool() {
 		tg := &gen.TypeGen{Zctx: tmplCtx, R: r, O: gen.TypeOpts{}}
-		for len(alphabet) < 24 {
+		for len(alphabet) < 32 {
 			t := tg.Type(3)
 			if c05TieUnion(t) {
 				continue
